@@ -48,13 +48,10 @@ CAUSE = {"nt_setitem": "nontensor-promotion", "nt_set_at": "nontensor-promotion"
          "mutate_result": "result-mutation", "isleaf_reuse": "address-reuse"}
 
 UNLOCKING_OPS = {"relock", "relock_edit", "with_unlock", "member_relock_edit", "mm_sub_unlock_edit", "sub_unlock"}
-# D7 is repaired (memmap_ locks through the lock graph): an unlock_ of a nested node / member of a memmap_-locked tree is REFUSED,
-# like in a lock_-locked tree.  A stale read after a history in which such an unlock was ACCEPTED has no recorded cause any more
-# (it is reported).  What is left of the old D62 are two defects of the lock layer that D7's repair does not touch:
-#   D68  a REFUSED unlock_ has already cleared _is_memmap / _is_shared on the subtree it tried to unlock (_propagate_unlock), and
-#        the re-lock does not restore them: a lazy stack whose members now disagree raises in is_memmap()
-#   D69  make_memmap*(nested key) under lock attaches new nested tensordicts that are not locked / not registered under the
-#        locked tree: they are written structurally, or unlocked alone, below memoised results
+# D7, D68 and D69 are repaired: an unlock_ of a nested node / member of a memmap_-locked tree is REFUSED like in a lock_-locked tree
+# and leaves every flag as it was; nested tensordicts attached under lock by make_memmap*(nested key) are locked and registered.
+# A stale read after a history in which such an unlock was accepted, a read that raises because _is_memmap was left split, a
+# structural write accepted on an attached node: none of them has a recorded cause (they are reported).
 
 MATERIALISING = {"flatten_keys", "unflatten_keys", "detach", "_add_batch_dim", "_remove_batch_dim", "_maybe_remove_batch_dim",
                  "_items_list", "_values_list"}
@@ -162,8 +159,6 @@ class Runner:
         self.mask = prog.get("fronts")   # None = all
         self.model_log = [] if collect_model_log else None
         self.counter = 0
-        self.refused_unlocks = 0   # unlocking ops of this history that raised the lock error
-        self.attached = set()      # paths of nested tensordicts attached under lock by make_memmap*(nested key)
 
     # ---------------------------------------------------------------- attribution
     def note_events(self, before, after, opkind, raised=False):
@@ -225,36 +220,6 @@ class Runner:
                     return e
         return None
 
-    def attached_above(self, at):
-        """the (outermost) nested tensordict attached under lock by make_memmap*(nested key) at or above path [at], or None"""
-        best = None
-        for a in self.attached:
-            if is_prefix(a, at) and (best is None or len(a) < len(best)):
-                best = a
-        return best
-
-    def registered_under(self, at, upper):
-        """is the deepest node at or above path [at] (strictly below [upper]) registered as locked under the node at [upper]?"""
-        try:
-            up = node_at(self.td, tuple(k for k in upper.split("/") if k))
-            parts = [k for k in at.split("/") if k]
-            nup = len([k for k in upper.split("/") if k])
-            low = None
-            for i in range(len(parts), nup, -1):
-                try:
-                    cand = node_at(self.td, tuple(parts[:i]))
-                except Exception:  # noqa: BLE001
-                    continue
-                if is_node(cand):
-                    low = cand
-                    break
-            if low is None:
-                return True
-            refs = low._lock_parents_weakrefs
-            return any(r() is up for r in refs)
-        except Exception:  # noqa: BLE001
-            return True
-
     def report(self, label, step, nodepath, methods, detail):
         methods = list(methods)
         try:
@@ -273,17 +238,6 @@ class Runner:
                     e = self.explain(qs, ms)
                     if e is not None:
                         break
-        if e is None and self.refused_unlocks:
-            # D68: a refused unlock_ of a member cleared _is_memmap on that member only: a lazy stack whose members disagree on
-            # the flag raises in is_memmap() as soon as a fresh computation runs
-            try:
-                here = node_at(self.td, tuple(k for k in nodepath.split("/") if k))
-                for q, m in walk_nodes(here):
-                    if is_lazy(m) and len({bool(x.__dict__.get("_is_memmap")) for x in m.tensordicts}) > 1:
-                        e = {"effect": "flags", "at": nodepath, "op": "refused-unlock", "raised": True}
-                        break
-            except Exception:  # noqa: BLE001
-                pass
         if e is not None:
             cause = CAUSE.get(e["op"], e["op"])
             if e["effect"] == "meta" and e["op"] not in UNLOCKING_OPS and e["op"] not in CAUSE:
@@ -294,15 +248,6 @@ class Runner:
                 cause = "lazy-own-names-setter"     # the lazy stack's own setter carries @erase_cache: not a recorded defect
             elif cause == "metadata-under-lock" and "names" in methods and e["at"] != nodepath:
                 cause = "lazy-member-names"
-            if e["effect"] == "flags" and e.get("raised") and (e["op"] in UNLOCKING_OPS or e["op"] == "refused-unlock"):
-                # _is_memmap / _is_shared changed under lock by an unlock_ that was REFUSED (D68); the same change left by an
-                # unlock_ that was accepted inside a locked tree has no recorded cause
-                cause = "refused-unlock-clears-memmap-flag"
-            att = self.attached_above(e.get("at", ""))
-            if att is not None and att != nodepath and is_prefix(nodepath, att) and not self.registered_under(att, nodepath):
-                # D69: the change lies at or below a nested tensordict that make_memmap*(nested key) attached under lock, and that
-                # tensordict is not registered as locked under the node that reads: its lock / its invalidation cannot reach that far
-                cause = "nested-node-attached-under-lock"
             sig = {"cause": cause, "effect": e["effect"], "explained": True}
         else:
             sig = {"cause": "none", "explained": False, "methods": ",".join(methods), "label": label}
@@ -490,8 +435,6 @@ class Runner:
             if is_lazy(n):
                 return "skip"
             newkey = f"mm{self.counter}" if op.get("which", 0) % 2 == 0 else (f"mn{self.counter}", "x")
-            if isinstance(newkey, tuple) and n.is_locked:
-                self.attached.add("/".join(p + (newkey[0],)))   # recorded before the call: a call that fails half way may have attached it
             if k == "make_memmap":
                 t = n.make_memmap(newkey, shape=torch.Size(list(n.batch_size) + [2]), dtype=torch.int64)
                 t.fill_(v)
@@ -623,9 +566,6 @@ class Runner:
                 except Exception as e:  # noqa: BLE001
                     out = "raise:" + exc_enum(e)
                 after = snapshot(self.td)
-                if op["op"] in UNLOCKING_OPS and out == "raise:LockError":
-                    self.refused_unlocks += 1
-                self.attached = {a for a in self.attached if a in after["nodes"]}
                 evs = self.note_events(before, after, op["op"], raised=out.startswith("raise"))
                 # a raising call that changed something is C05's business; the events are still recorded (with the fact that it raised)
                 self.steps.append({"op": op["op"], "out": out, "events": sorted({e for e, _ in evs})})
